@@ -208,6 +208,15 @@ def run(tier, selftest=False, only=None):
         composites.append(("%s/%s/%s" % (a, b, b), fa, "m/s/s"))
         composites.append(("%s.%s-1.%s-1" % (a, b, b), fa, "m.s-2"))
         composites.append(("%s.%s/%s" % (a, a, b), UO.conv(sc, (a, b, "molecule"), m3, (2, -1, 0)), "m2/s"))
+        # a negative exponent after "/" is a double negation: a/b-1 = a.b
+        composites.append(("%s/%s-1" % (a, b), UO.conv(sc, (a, b, "molecule"), m3, (1, 1, 0)), "m.s"))
+        composites.append(("%s-1/%s-1" % (a, b), UO.conv(sc, (a, b, "molecule"), m3, (-1, 1, 0)), "s/m"))
+        composites.append(("%s-2/%s-2/%s" % (b, a, a), UO.conv(sc, (a, b, "molecule"), m3, (1, -2, 0)), "m.s-2"))
+    for mu in den:
+        for b in ("s", "min", "ms"):
+            composites.append(("%s-1/%s-1" % (b, mu), den[mu] * UO.conv(sc, ("m", b, "molecule"), m3, (0, -1, 0)), ""))
+        qu = mu[:-1] + "mol"                    # the amount unit the molar symbol is built on (one base unit per base in a string)
+        composites.append(("%s/L-1/%s" % (qu, mu), sc["quantity"][qu] * vol["L"] / den[mu], ""))
     # (a string may name one base several times only through the SAME base unit: the molar symbols are per dm3 = L,
     #  and each litre symbol is the cube of one length unit)
     cube_of = {lu: su for lu in vol for su in sc["space"] if UO.conv(sc, (su, "s", "molecule"), m3, (3, 0, 0)) == vol[lu]}
